@@ -540,14 +540,36 @@ def ob_block_data(ctx, res):
     res.ok(fn, "read_block_data: block.size bytes at block.offset; inflate (zlib) into uncompressBufSize bytes iff that is > 0, cut to the inflated length")
 
 
+def _field_from_open(fn, lit):
+    x = [y for y in lit["fields"] if y["name"] == "file"]
+    if not x:
+        return False
+    e = x[0].get("e")
+    t = up(strip(e)) if e is not None else "file"
+    if "File::open" in t:
+        return True
+    if re.fullmatch(r"\w+", t):
+        b = binding_before(fn, t, lit)
+        return b is not None and b[0] == "let" and b[1].get("init") is not None and "File::open" in up(b[1]["init"])
+    return False
+
+
 def ob_reopen(ctx, res):
     """C03-R1: a reopened reader reads the same file with the same info and independent position"""
     RO = "bigtools/src/utils/file/reopen.rs"
     fn = ctx.ast.fn(RO, "reopen", impl="ReopenableFile")
     lit = [n for n in walk_no_nested_fn(fn.body) if n.k == "struct" and n["path"].endswith("ReopenableFile")]
-    f = {x["name"]: up(strip(x["e"])) for x in lit[0]["fields"]} if lit else {}
-    if f.get("path") != "self.path" or f.get("file") not in ("File::open(self.path)?", "File::open(&self.path)?"):
-        res.fail("reopen/file", fn, "reopen must open the SAME path again (independent file position); got %s" % f)
+    from ..astq import upn
+    f = {}
+    for x in (lit[0]["fields"] if lit else []):
+        e = x.get("e")
+        f[x["name"]] = re.sub(r"\.clone\(\)|&", "", upn(fn, e)) if e is not None else x["name"]
+    opens = [c for c in walk_no_nested_fn(fn.body) if c.k == "call" and up(c["func"]).endswith("File::open")]
+    opened = [re.sub(r"\.clone\(\)|&", "", upn(fn, c["args"][0])) for c in opens]
+    if not lit:
+        res.undecided("reopen/file", fn, "no ReopenableFile literal in reopen()")
+    elif f.get("path") != "self.path" or opened != ["self.path"] or not _field_from_open(fn, lit[0]):
+        res.fail("reopen/file", fn, "reopen must open the SAME path again (independent file position); path field `%s`, opened %s" % (f.get("path"), opened))
     else:
         res.ok(fn, "ReopenableFile::reopen: File::open(&self.path), same path")
     for file, ty in ((RW, "BigWigRead"), (RB, "BigBedRead")):
